@@ -31,7 +31,8 @@ ASSUMPTIONS = ["don't-care: bool for int fields, +-inf and NaN literals, ctypes 
                "inconclusive)",
                "float read-back compared via struct round trip; strings up to the first NUL"]
 REQUIRE = {"assignments": 20000, "refusals_required": 5000, "readbacks_compared": 5000, "atomicity_checked_on_raise": 5000,
-           "disable_blocks_checked": 50, "checked_while_other_thread_in_disable_block": 10}
+           "disable_blocks_checked": 50, "checked_while_other_thread_in_disable_block": 10,
+           "writes_through_views_bound_inside_disable_block": 100}
 CASE_TIMEOUT = 120
 HUGE = 10 ** 400
 
@@ -357,12 +358,17 @@ def disable_program(mon, mod, rng, shape):
     from pyrtma.validators import disable_message_validation
     top = mod.MDF_FSCALARS()
     levels, raise_at = shape["levels"], shape["raise_at"]
+    held = mod.MDF_FARRAYS3()
+    nest = mod.MDF_FNESTED()
+    views = {}
 
     class Boom(Exception):
         pass
 
     def enter(i):
         if i == len(levels):
+            # array views obtained while the blocks are open and kept for use after them
+            views.update(a_int16=held.a_int16, a_float=held.a_float, a_bytes=held.a_bytes, inners=nest.inners, u=nest.inner.u)
             # innermost: an out-of-domain assignment is accepted only if some enclosing block really disables
             try:
                 top.f_int8 = 1000
@@ -399,6 +405,7 @@ def disable_program(mon, mod, rng, shape):
         mon.bump("checked_while_other_thread_in_disable_block")
     try:
         _after_blocks(mon, mod, levels, raise_at, "while_other_thread_in_disable_block" if helper else None)
+        _views_after_blocks(mon, mod, held, nest, views, levels, raise_at)
     finally:
         if helper:
             release.set()
@@ -409,6 +416,29 @@ def disable_program(mon, mod, rng, shape):
         _v._VALIDATION_ENABLED.set(True)
     except Exception:
         pass
+
+
+def _views_after_blocks(mon, mod, held, nest, views, levels, raise_at):
+    """writes through array views that were obtained inside the (now left) disable blocks: validation is in force"""
+    how = f"after disable block(s) {levels} left {'by exception at level ' + str(raise_at) if raise_at is not None else 'normally'}, through a view obtained inside"
+    todo = [(held, ("a_int16",), ["intarray", 16, True, 3], "a_int16", 1, 70000), (held, ("a_int16",), ["intarray", 16, True, 3], "a_int16", slice(0, 2), [1, -40000]),
+            (held, ("a_float",), ["floatarray", 32, 3], "a_float", 2, 1e39), (held, ("a_bytes",), ["bytearray", 3], "a_bytes", 0, 256),
+            (nest, ("inner", "u"), ["intarray", 16, False, 3], "u", 1, -1), (nest, ("inners",), None, "inners", 0, (1, 2.0, "x", [1, 2, 3]))]
+    for top, path, kind, vname, key, bad in todo:
+        v = views.get(vname)
+        if v is None:
+            continue
+        mon.bump("writes_through_views_bound_inside_disable_block")
+        before = bytes(top)
+        try:
+            v[key] = bad
+            accepted = True
+        except Exception:
+            accepted = False
+        if accepted or bytes(top) != before:
+            mon.V.append({"mech": "validation_off_for_view_bound_inside_disable_block:" + ("exception" if raise_at is not None else "normal"),
+                          "detail": f"{type(top).__name__}.{'.'.join(path)}[{key!r}] = {bad!r} {how}: "
+                                    f"{'accepted' if accepted else 'refused'}, message bytes {'changed' if bytes(top) != before else 'unchanged'}"})
 
 
 def _after_blocks(mon, mod, levels, raise_at, tag):
